@@ -318,6 +318,19 @@ func c20case(c *Ctx, r *Rng, keys []string) {
 		nodes = append(nodes, n)
 		ins = append(ins, c11ins{hEnrBytes(n), r.Intn(6) != 0})
 	}
+	// sometimes the second real instance is a table entry: it answers the ENR re-request a higher sequence number triggers
+	var livePeer enode.ID
+	if r.Intn(4) == 0 && len(keys) > 1 {
+		other := keys[0]
+		if other == key {
+			other = keys[1]
+		}
+		pn := hInstanceP(other, "-", proto, 50).Self()
+		livePeer = pn.ID()
+		nodes = append(nodes, pn)
+		ins = append(ins, c11ins{hEnrBytes(pn), true})
+		c.Count("table_holds_live_peer")
+	}
 	outsider := func() *enode.Node {
 		var id enode.ID
 		copy(id[:], r.Bytes(32))
@@ -393,8 +406,22 @@ func c20case(c *Ctx, r *Rng, keys []string) {
 				payload, _ = pl.MarshalSSZ()
 			}
 		}
+		// the ENR sequence number the message announces: normally not above the record in the table; sometimes above it, which
+		// makes the handler re-request the record first (RequestENR) - from a peer nobody listens at (the request times out)
+		// or from the live second instance (the request succeeds).  The payload must be processed all the same.
+		seq := uint64(r.Intn(2))
+		if clean && n.ID() == livePeer {
+			if r.Bool() {
+				seq = n.Seq() + 1 + uint64(r.Intn(3))
+				c.Count("report_higher_enr_seq_fetch_succeeds")
+			}
+		} else if clean && c20seqBudget > 0 && r.Intn(6) == 0 {
+			seq = n.Seq() + 1 + uint64(r.Intn(3))
+			c20seqBudget--
+			c.Count("report_higher_enr_seq_fetch_fails")
+		}
 		if !pong {
-			m := &portalwire.Ping{EnrSeq: uint64(r.Intn(2)), PayloadType: ptype, Payload: payload}
+			m := &portalwire.Ping{EnrSeq: seq, PayloadType: ptype, Payload: payload}
 			b, err := m.MarshalSSZ()
 			if err != nil {
 				return
@@ -405,7 +432,7 @@ func c20case(c *Ctx, r *Rng, keys []string) {
 			}
 			ops = append(ops, fmt.Sprintf("pi~%s~%s", hx(hEnrBytes(n)), hx(msg)))
 		} else {
-			m := &portalwire.Pong{EnrSeq: uint64(r.Intn(2)), PayloadType: ptype, Payload: payload}
+			m := &portalwire.Pong{EnrSeq: seq, PayloadType: ptype, Payload: payload}
 			b, err := m.MarshalSSZ()
 			if err != nil {
 				return
@@ -571,6 +598,9 @@ func c20directed(c *Ctx, r *Rng, keys []string) {
 	c20exec(c, key, proto, 50, ins, ops)
 }
 
+// how many reports of a run may announce a higher ENR sequence number from an unreachable peer (each costs one RPC timeout)
+var c20seqBudget = 0
+
 func runC20(c *Ctx) {
 	hQuiet()
 	if len(c.Args) >= 2 && c.Args[0] == "replay" {
@@ -578,8 +608,10 @@ func runC20(c *Ctx) {
 		return
 	}
 	n := 400
+	c20seqBudget = 14
 	if c.Tier == "thorough" {
 		n = 8000
+		c20seqBudget = 150
 	}
 	if c.N > 0 {
 		n = c.N
